@@ -7,6 +7,9 @@
 //           segmentation of the client's bytes into separate reads (default: everything a burst holds in one read):
 //           l = a read ends after every CRLF; 1 = one byte per read; r<seed> = pseudo-random cut points (about every
 //           12th byte, and with probability 1/2 right after each CRLF).  The server must see the same requests for all.
+//           Connection variants: n none, c close, k keep-alive, C "Close", K "Keep-Alive", t "keep-alive, close",
+//           m two lines "Connection: x-y" + "Connection: close";  an optional 6th flag g: the handler of this request
+//           puts the server into graceful-shutdown state before it answers (it stays so for the rest of the stream)
 // requests: ';' separated   <G|H|P><0|1><n|c|k><n|e|u><y|o>:<body>   |  X4 (garbage line)  |  XU (over-long URI)  |  XH (over-long header)
 //           method, HTTP/1.<p>, Connection none/close/keep-alive, Expect none/100-continue/unknown,
 //           body: y sent with the header (pipelined) / o omitted (next request pipelined) / w waiting client: nothing
@@ -78,7 +81,7 @@ func renderReq(i int, tok string) (head []byte, bodyBytes []byte, waits bool, ok
 		return []byte(fmt.Sprintf("GET /%d HTTP/1.1\r\nHost: h\r\nX-Big: %s\r\n\r\n", i, strings.Repeat("h", 12000))), nil, false, true
 	}
 	f := strings.Split(tok, ":")
-	if len(f) != 2 || len(f[0]) != 5 || f[1] == "" {
+	if len(f) != 2 || (len(f[0]) != 5 && !(len(f[0]) == 6 && f[0][5] == 'g')) || f[1] == "" {
 		return nil, nil, false, false
 	}
 	var b strings.Builder
@@ -102,6 +105,14 @@ func renderReq(i int, tok string) (head []byte, bodyBytes []byte, waits bool, ok
 		b.WriteString("Connection: close\r\n")
 	case 'k':
 		b.WriteString("Connection: keep-alive\r\n")
+	case 'C':
+		b.WriteString("Connection: Close\r\n")
+	case 'K':
+		b.WriteString("Connection: Keep-Alive\r\n")
+	case 't':
+		b.WriteString("Connection: keep-alive, close\r\n")
+	case 'm':
+		b.WriteString("Connection: x-y\r\nConnection: close\r\n")
 	default:
 		return nil, nil, false, false
 	}
@@ -299,7 +310,11 @@ func exec(op string) string {
 	}
 	var parts []bfe_server.VerifC28Part
 	var cur []byte
+	shutdownAt := map[int]bool{}
 	for i, tok := range strings.Split(f[2], ";") {
+		if j := strings.IndexByte(tok, ':'); j == 6 && tok[5] == 'g' {
+			shutdownAt[i] = true
+		}
 		head, body, waits, ok := renderReq(i, tok)
 		if !ok {
 			return "bad-op"
@@ -332,6 +347,9 @@ func exec(op string) string {
 			}
 		}
 		starts = append(starts, fmt.Sprintf("%d:%s", start, idx))
+		if v, err := strconv.Atoi(idx); err == nil && shutdownAt[v] {
+			bfe_server.VerifC28Shutdown()
+		}
 		sc := defaultScript
 		if n < len(scripts) {
 			sc = scripts[n]
@@ -412,11 +430,11 @@ func genReq(r *vh.Rand, last bool) string {
 	c := "n"
 	switch {
 	case p == "0" && r.Chance(7, 10):
-		c = "k"
-	case r.Chance(1, 12):
-		c = "c"
+		c = r.Pick("k", "k", "k", "K", "t")
+	case r.Chance(1, 10):
+		c = r.Pick("c", "c", "C", "t", "m")
 	case r.Chance(1, 8):
-		c = "k"
+		c = r.Pick("k", "K")
 	}
 	body := "-"
 	if m == "P" || r.Chance(1, 10) {
@@ -466,7 +484,11 @@ func genReq(r *vh.Rand, last bool) string {
 	} else if r.Chance(1, 80) {
 		e = "e" // Expect with no body: 400
 	}
-	return m + p + c + e + s + ":" + body
+	g := ""
+	if r.Chance(1, 25) {
+		g = "g"
+	}
+	return m + p + c + e + s + g + ":" + body
 }
 
 func genScript(r *vh.Rand, noRead bool) string {
@@ -524,7 +546,8 @@ func gen(r *vh.Rand) string {
 		reqs = append(reqs, genReq(r, i == n-1))
 	}
 	for i, k := 0, r.Range(0, n); i < k; i++ {
-		scs = append(scs, genScript(r, strings.Contains(reqs[i], "o:") || (strings.Contains(reqs[i], "w:") && r.Chance(1, 2))))
+		scs = append(scs, genScript(r, strings.Contains(reqs[i], "o:") || strings.Contains(reqs[i], "og:") ||
+			((strings.Contains(reqs[i], "w:") || strings.Contains(reqs[i], "wg:")) && r.Chance(1, 2))))
 	}
 	sc := "-"
 	if len(scs) > 0 {
